@@ -40,12 +40,15 @@ type Cfg struct {
 	Fill string // "none" | "null" | "num"     (join)
 	Tol  int    // tolerance in model time units (join); 0 = exact
 	On   bool   // join.on('b'): parent 0 grouped by b, parent 1 by b,f
+	// Barrier: every parent gets |barrier().idle(100ms) (wall-clock driven; used with Sleep steps and
+	// times that are 1000 units apart so that the barriers stay truthful however long a pause takes).
+	Barrier bool `json:",omitempty"`
 	// Script, if set, replaces the generated TICKscript (manual probes only).
 	Script string `json:",omitempty"`
 }
 
 func (c Cfg) String() string {
-	return fmt.Sprintf("%s/%s/n%d/%s/tol%d/on%v", c.Kind, c.Edge, c.N, c.Fill, c.Tol, c.On)
+	return fmt.Sprintf("%s/%s/n%d/%s/tol%d/on%v/bar%v", c.Kind, c.Edge, c.N, c.Fill, c.Tol, c.On, c.Barrier)
 }
 
 var parentNames = []string{"a", "b", "c"}
@@ -74,7 +77,11 @@ func (c Cfg) script() string {
 					gb = ".groupBy('b', 'f')"
 				}
 			}
-			fmt.Fprintf(&sb, "var %s = stream|from().measurement('%s')%s\n", nm, nm, gb)
+			bar := ""
+			if c.Barrier {
+				bar = "|barrier().idle(100ms)"
+			}
+			fmt.Fprintf(&sb, "var %s = stream|from().measurement('%s')%s%s\n", nm, nm, gb, bar)
 		} else {
 			gb := ".groupBy('g')"
 			if c.On {
